@@ -32,13 +32,43 @@ theorem RR.ofEq {τ : Type} {r1 r2 : Nat × Err × τ} (h : r1 = r2) : RR (fun x
 theorem not_goesOn_ne_ok {e : Err} (h : ¬ Err.goesOn e) : (e == Err.ok) = false := by
   cases e <;> first | rfl | exact absurd (Or.inl rfl) h
 
+/-- the states in which the loop body continues a header-specific value parser -/
+def HState.isVal (st : HState) : Prop :=
+  st = .hFrom ∨ st = .hTo ∨ st = .hCallID ∨ st = .hCSeq ∨ st = .hCLen ∨ st = .hContact ∨ st = .hExpires ∨ st = .hPAI
+
+theorem hlStep_isVal (B : Buf) (i : Nat) (c : UInt8) (h : Hdr) (hb : Option PHdrVals) (hv : h.state.isVal) :
+    hlStep B i c (h, hb) = hlCont B i h hb := by
+  unfold hlStep
+  simp only
+  rcases hv with h1 | h1 | h1 | h1 | h1 | h1 | h1 | h1 <;> rw [h1]
+
+/-- in a "continue the value parser" state, the value being parsed is not finished yet -/
+def hvPending (st : HState) (hv : PHdrVals) : Prop :=
+  (st = .hFrom → hv.from_.state ≠ .fin) ∧ (st = .hTo → hv.to.state ≠ .fin) ∧
+  (st = .hCallID → hv.callid.state ≠ .fin) ∧ (st = .hCSeq → hv.cseq.state ≠ .fin) ∧
+  (st = .hCLen → hv.clen.state ≠ .fin) ∧ (st = .hContact → hv.contacts.cur.state ≠ .fin) ∧
+  (st = .hExpires → hv.expires.state ≠ .fin) ∧ (st = .hPAI → hv.pais.cur.state ≠ .fin)
+
+def hlPending (st : HLσ) : Prop :=
+  match st.2 with
+  | none => True
+  | some hv => hvPending st.1.state hv
+
+theorem hlPending_of_not_isVal {h : Hdr} {hb : Option PHdrVals} (hn : ¬ h.state.isVal) : hlPending (h, hb) := by
+  unfold hlPending
+  cases hb with
+  | none => trivial
+  | some hv =>
+    simp only
+    refine ⟨?_, ?_, ?_, ?_, ?_, ?_, ?_, ?_⟩ <;> intro hh <;> exfalso <;> apply hn <;> simp [HState.isVal, hh]
+
 /-- restart of a header-specific value parser that was suspended inside `case hFrom:` … `case hPAI:` -/
 theorem hlCont_restart (b s : Buf) (i : Nat) (h : Hdr) (hb : Option PHdrVals) (hi : i ≤ b.size)
     (hok : hbOK b i hb) {n : Nat} {h2 : Hdr} {hb2 : Option PHdrVals}
     (hs : hlCont b i h hb = .done n .moreBytes (h2, hb2)) :
     (∃ rC rO : Nat × Err × HLσ, hlCont (b ++ s) n h2 hb2 = .done rC.1 rC.2.1 rC.2.2 ∧
       hlCont (b ++ s) i h hb = .done rO.1 rO.2.1 rO.2.2 ∧ RR hlObs rC rO) ∧
-    hbOK (b ++ s) n hb2 ∧ i ≤ n ∧ n ≤ b.size ∧ h2 = h := by
+    hbOK (b ++ s) n hb2 ∧ i ≤ n ∧ n ≤ b.size ∧ h2 = h ∧ hlPending (h2, hb2) := by
   unfold hlCont at hs
   cases hb with
   | none => cases hs
@@ -53,11 +83,13 @@ theorem hlCont_restart (b s : Buf) (i : Nat) (h : Hdr) (hb : Option PHdrVals) (h
       obtain ⟨rfl, rfl, hh2, rfl⟩ := hs
       simp only [Bool.false_eq_true, ↓reduceIte, show (Err.moreBytes == Err.ok) = false from rfl] at hh2
       subst hh2
-      obtain ⟨hrr, hokN, _⟩ := parseNameAddrPVal_resumeR HdrFrom b s i hv.from_ ok1 hq
+      obtain ⟨hrr, hokN, hnf⟩ := parseNameAddrPVal_resumeR HdrFrom b s i hv.from_ ok1 hq
       have hrg := parseNameAddrPVal_more_range HdrFrom b i hv.from_ ok1 hq
       have hk1 : i ≤ n1 := hrg.1
       have hk2 : n1 ≤ (b ++ s).size := by rw [Array.size_append]; omega
-      refine ⟨?_, ⟨hokN, naOK_mono (naOK_grows s ok2) hk1 hk2, csOK_mono (csOK_grows s ok3) hk1 hk2, ctOK_mono (ctOK_grows s ok4) hk1 hk2, paOK_mono (paOK_grows s ok5) hk1 hk2⟩, hrg.1, hrg.2, rfl⟩
+      refine ⟨?_, ⟨hokN, naOK_mono (naOK_grows s ok2) hk1 hk2, csOK_mono (csOK_grows s ok3) hk1 hk2, ctOK_mono (ctOK_grows s ok4) hk1 hk2, paOK_mono (paOK_grows s ok5) hk1 hk2⟩, hrg.1, hrg.2, rfl, (by
+        refine ⟨?_, ?_, ?_, ?_, ?_, ?_, ?_, ?_⟩ <;> intro hh <;>
+          first | exact hnf | (rw [hst] at hh; cases hh))⟩
       have hasm := RR.assemble hrr
         (fun e f => ((if e == .ok then { h with val := f.v, state := .fin } else h), some { hv with from_ := f }))
         (by
@@ -74,11 +106,13 @@ theorem hlCont_restart (b s : Buf) (i : Nat) (h : Hdr) (hb : Option PHdrVals) (h
       obtain ⟨rfl, rfl, hh2, rfl⟩ := hs
       simp only [Bool.false_eq_true, ↓reduceIte, show (Err.moreBytes == Err.ok) = false from rfl] at hh2
       subst hh2
-      obtain ⟨hrr, hokN, _⟩ := parseNameAddrPVal_resumeR HdrTo b s i hv.to ok2 hq
+      obtain ⟨hrr, hokN, hnf⟩ := parseNameAddrPVal_resumeR HdrTo b s i hv.to ok2 hq
       have hrg := parseNameAddrPVal_more_range HdrTo b i hv.to ok2 hq
       have hk1 : i ≤ n1 := hrg.1
       have hk2 : n1 ≤ (b ++ s).size := by rw [Array.size_append]; omega
-      refine ⟨?_, ⟨naOK_mono (naOK_grows s ok1) hk1 hk2, hokN, csOK_mono (csOK_grows s ok3) hk1 hk2, ctOK_mono (ctOK_grows s ok4) hk1 hk2, paOK_mono (paOK_grows s ok5) hk1 hk2⟩, hrg.1, hrg.2, rfl⟩
+      refine ⟨?_, ⟨naOK_mono (naOK_grows s ok1) hk1 hk2, hokN, csOK_mono (csOK_grows s ok3) hk1 hk2, ctOK_mono (ctOK_grows s ok4) hk1 hk2, paOK_mono (paOK_grows s ok5) hk1 hk2⟩, hrg.1, hrg.2, rfl, (by
+        refine ⟨?_, ?_, ?_, ?_, ?_, ?_, ?_, ?_⟩ <;> intro hh <;>
+          first | exact hnf | (rw [hst] at hh; cases hh))⟩
       have hasm := RR.assemble hrr
         (fun e f => ((if e == .ok then { h with val := f.v, state := .fin } else h), some { hv with to := f }))
         (by
@@ -97,11 +131,14 @@ theorem hlCont_restart (b s : Buf) (i : Nat) (h : Hdr) (hb : Option PHdrVals) (h
       subst hh2
       have hrr : RR (fun x : PCallIDBody => x) (parseCallIDVal (b ++ s) n1 f1) (parseCallIDVal (b ++ s) i hv.callid) :=
         RR.ofEq (parseCallIDVal_resume b s i hv.callid hq)
+      have hnf := parseCallIDVal_more_notfin b i hv.callid hq
       have hrg : i ≤ n1 ∧ n1 ≤ b.size := by
         have := parseCallIDVal_range b i hv.callid hi; rw [hq] at this; exact this
       have hk1 : i ≤ n1 := hrg.1
       have hk2 : n1 ≤ (b ++ s).size := by rw [Array.size_append]; omega
-      refine ⟨?_, ⟨naOK_mono (naOK_grows s ok1) hk1 hk2, naOK_mono (naOK_grows s ok2) hk1 hk2, csOK_mono (csOK_grows s ok3) hk1 hk2, ctOK_mono (ctOK_grows s ok4) hk1 hk2, paOK_mono (paOK_grows s ok5) hk1 hk2⟩, hrg.1, hrg.2, rfl⟩
+      refine ⟨?_, ⟨naOK_mono (naOK_grows s ok1) hk1 hk2, naOK_mono (naOK_grows s ok2) hk1 hk2, csOK_mono (csOK_grows s ok3) hk1 hk2, ctOK_mono (ctOK_grows s ok4) hk1 hk2, paOK_mono (paOK_grows s ok5) hk1 hk2⟩, hrg.1, hrg.2, rfl, (by
+        refine ⟨?_, ?_, ?_, ?_, ?_, ?_, ?_, ?_⟩ <;> intro hh <;>
+          first | exact hnf | (rw [hst] at hh; cases hh))⟩
       have hasm := RR.assemble hrr
         (fun e f => ((if e == .ok then { h with val := f.callID, state := .fin } else h), some { hv with callid := f }))
         (by
@@ -122,9 +159,12 @@ theorem hlCont_restart (b s : Buf) (i : Nat) (h : Hdr) (hb : Option PHdrVals) (h
       have hrr : RR (fun x : PCSeqBody => x) (parseCSeqVal (b ++ s) n1 f1) (parseCSeqVal (b ++ s) i hv.cseq) :=
         RR.ofEq hex
       have hrg := parseCSeqVal_more_range b i hv.cseq ok3 hq
+      have hnf := parseCSeqVal_more_notfin b i hv.cseq ok3 hq
       have hk1 : i ≤ n1 := hrg.1
       have hk2 : n1 ≤ (b ++ s).size := by rw [Array.size_append]; omega
-      refine ⟨?_, ⟨naOK_mono (naOK_grows s ok1) hk1 hk2, naOK_mono (naOK_grows s ok2) hk1 hk2, hokN, ctOK_mono (ctOK_grows s ok4) hk1 hk2, paOK_mono (paOK_grows s ok5) hk1 hk2⟩, hrg.1, hrg.2, rfl⟩
+      refine ⟨?_, ⟨naOK_mono (naOK_grows s ok1) hk1 hk2, naOK_mono (naOK_grows s ok2) hk1 hk2, hokN, ctOK_mono (ctOK_grows s ok4) hk1 hk2, paOK_mono (paOK_grows s ok5) hk1 hk2⟩, hrg.1, hrg.2, rfl, (by
+        refine ⟨?_, ?_, ?_, ?_, ?_, ?_, ?_, ?_⟩ <;> intro hh <;>
+          first | exact hnf | (rw [hst] at hh; cases hh))⟩
       have hasm := RR.assemble hrr
         (fun e f => ((if e == .ok then { h with val := f.v, state := .fin } else h), some { hv with cseq := f }))
         (by
@@ -144,9 +184,12 @@ theorem hlCont_restart (b s : Buf) (i : Nat) (h : Hdr) (hb : Option PHdrVals) (h
       have hrr : RR (fun x : PUIntBody => x) (parseCLenVal (b ++ s) n1 f1) (parseCLenVal (b ++ s) i hv.clen) :=
         RR.ofEq (parseCLenVal_resume b s i hv.clen hq)
       have hrg := parseCLenVal_more_range b i hv.clen hi hq
+      have hnf := parseCLenVal_more_notfin b i hv.clen hq
       have hk1 : i ≤ n1 := hrg.1
       have hk2 : n1 ≤ (b ++ s).size := by rw [Array.size_append]; omega
-      refine ⟨?_, ⟨naOK_mono (naOK_grows s ok1) hk1 hk2, naOK_mono (naOK_grows s ok2) hk1 hk2, csOK_mono (csOK_grows s ok3) hk1 hk2, ctOK_mono (ctOK_grows s ok4) hk1 hk2, paOK_mono (paOK_grows s ok5) hk1 hk2⟩, hrg.1, hrg.2, rfl⟩
+      refine ⟨?_, ⟨naOK_mono (naOK_grows s ok1) hk1 hk2, naOK_mono (naOK_grows s ok2) hk1 hk2, csOK_mono (csOK_grows s ok3) hk1 hk2, ctOK_mono (ctOK_grows s ok4) hk1 hk2, paOK_mono (paOK_grows s ok5) hk1 hk2⟩, hrg.1, hrg.2, rfl, (by
+        refine ⟨?_, ?_, ?_, ?_, ?_, ?_, ?_, ?_⟩ <;> intro hh <;>
+          first | exact hnf | (rw [hst] at hh; cases hh))⟩
       have hasm := RR.assemble hrr
         (fun e f => ((if e == .ok then { h with val := f.sVal, state := .fin } else h), some { hv with clen := f }))
         (by
@@ -163,10 +206,12 @@ theorem hlCont_restart (b s : Buf) (i : Nat) (h : Hdr) (hb : Option PHdrVals) (h
       obtain ⟨rfl, rfl, hh2, rfl⟩ := hs
       simp only [Bool.false_eq_true, ↓reduceIte, show (Err.moreBytes == Err.ok) = false from rfl] at hh2
       subst hh2
-      obtain ⟨hrr, hokN, hrg⟩ := parseAllContactValues_resume b s i hv.contacts ok4 hi hq
+      obtain ⟨hrr, hokN, hnf, hrg⟩ := parseAllContactValues_resume b s i hv.contacts ok4 hi hq
       have hk1 : i ≤ n1 := hrg.1
       have hk2 : n1 ≤ (b ++ s).size := by rw [Array.size_append]; omega
-      refine ⟨?_, ⟨naOK_mono (naOK_grows s ok1) hk1 hk2, naOK_mono (naOK_grows s ok2) hk1 hk2, csOK_mono (csOK_grows s ok3) hk1 hk2, hokN, paOK_mono (paOK_grows s ok5) hk1 hk2⟩, hrg.1, hrg.2, rfl⟩
+      refine ⟨?_, ⟨naOK_mono (naOK_grows s ok1) hk1 hk2, naOK_mono (naOK_grows s ok2) hk1 hk2, csOK_mono (csOK_grows s ok3) hk1 hk2, hokN, paOK_mono (paOK_grows s ok5) hk1 hk2⟩, hrg.1, hrg.2, rfl, (by
+        refine ⟨?_, ?_, ?_, ?_, ?_, ?_, ?_, ?_⟩ <;> intro hh <;>
+          first | exact hnf | (rw [hst] at hh; cases hh))⟩
       have hasm := RR.assemble hrr
         (fun e f => ((if e == .ok then { h with val := f.lastHVal, state := .fin } else h), some { hv with contacts := f }))
         (by
@@ -185,11 +230,14 @@ theorem hlCont_restart (b s : Buf) (i : Nat) (h : Hdr) (hb : Option PHdrVals) (h
       subst hh2
       have hrr : RR (fun x : PUIntBody => x) (parseUIntVal (b ++ s) n1 f1) (parseUIntVal (b ++ s) i hv.expires) :=
         RR.ofEq (parseUIntVal_resume b s i hv.expires hq)
+      have hnf := parseUIntVal_more_notfin b i hv.expires hq
       have hrg : i ≤ n1 ∧ n1 ≤ b.size := by
         have := parseUIntVal_range b i hv.expires hi; rw [hq] at this; exact this
       have hk1 : i ≤ n1 := hrg.1
       have hk2 : n1 ≤ (b ++ s).size := by rw [Array.size_append]; omega
-      refine ⟨?_, ⟨naOK_mono (naOK_grows s ok1) hk1 hk2, naOK_mono (naOK_grows s ok2) hk1 hk2, csOK_mono (csOK_grows s ok3) hk1 hk2, ctOK_mono (ctOK_grows s ok4) hk1 hk2, paOK_mono (paOK_grows s ok5) hk1 hk2⟩, hrg.1, hrg.2, rfl⟩
+      refine ⟨?_, ⟨naOK_mono (naOK_grows s ok1) hk1 hk2, naOK_mono (naOK_grows s ok2) hk1 hk2, csOK_mono (csOK_grows s ok3) hk1 hk2, ctOK_mono (ctOK_grows s ok4) hk1 hk2, paOK_mono (paOK_grows s ok5) hk1 hk2⟩, hrg.1, hrg.2, rfl, (by
+        refine ⟨?_, ?_, ?_, ?_, ?_, ?_, ?_, ?_⟩ <;> intro hh <;>
+          first | exact hnf | (rw [hst] at hh; cases hh))⟩
       have hasm := RR.assemble hrr
         (fun e f => ((if e == .ok then { h with val := f.sVal, state := .fin } else h), some { hv with expires := f }))
         (by
@@ -206,10 +254,12 @@ theorem hlCont_restart (b s : Buf) (i : Nat) (h : Hdr) (hb : Option PHdrVals) (h
       obtain ⟨rfl, rfl, hh2, rfl⟩ := hs
       simp only [Bool.false_eq_true, ↓reduceIte, show (Err.moreBytes == Err.ok) = false from rfl] at hh2
       subst hh2
-      obtain ⟨hrr, hokN, hrg⟩ := parseAllPAIValues_resume b s i hv.pais ok5 hi hq
+      obtain ⟨hrr, hokN, hnf, hrg⟩ := parseAllPAIValues_resume b s i hv.pais ok5 hi hq
       have hk1 : i ≤ n1 := hrg.1
       have hk2 : n1 ≤ (b ++ s).size := by rw [Array.size_append]; omega
-      refine ⟨?_, ⟨naOK_mono (naOK_grows s ok1) hk1 hk2, naOK_mono (naOK_grows s ok2) hk1 hk2, csOK_mono (csOK_grows s ok3) hk1 hk2, ctOK_mono (ctOK_grows s ok4) hk1 hk2, hokN⟩, hrg.1, hrg.2, rfl⟩
+      refine ⟨?_, ⟨naOK_mono (naOK_grows s ok1) hk1 hk2, naOK_mono (naOK_grows s ok2) hk1 hk2, csOK_mono (csOK_grows s ok3) hk1 hk2, ctOK_mono (ctOK_grows s ok4) hk1 hk2, hokN⟩, hrg.1, hrg.2, rfl, (by
+        refine ⟨?_, ?_, ?_, ?_, ?_, ?_, ?_, ?_⟩ <;> intro hh <;>
+          first | exact hnf | (rw [hst] at hh; cases hh))⟩
       have hasm := RR.assemble hrr
         (fun e f => ((if e == .ok then { h with val := f.lastHVal, state := .fin } else h), some { hv with pais := f }))
         (by
@@ -221,16 +271,6 @@ theorem hlCont_restart (b s : Buf) (i : Nat) (h : Hdr) (hb : Option PHdrVals) (h
       · unfold hlCont; simp only [hst]; try rfl
     all_goals cases hs
 
-/-- the states in which the loop body continues a header-specific value parser -/
-def HState.isVal (st : HState) : Prop :=
-  st = .hFrom ∨ st = .hTo ∨ st = .hCallID ∨ st = .hCSeq ∨ st = .hCLen ∨ st = .hContact ∨ st = .hExpires ∨ st = .hPAI
-
-theorem hlStep_isVal (B : Buf) (i : Nat) (c : UInt8) (h : Hdr) (hb : Option PHdrVals) (hv : h.state.isVal) :
-    hlStep B i c (h, hb) = hlCont B i h hb := by
-  unfold hlStep
-  simp only
-  rcases hv with h1 | h1 | h1 | h1 | h1 | h1 | h1 | h1 <;> rw [h1]
-
 /-- restart after the header-value dispatch suspended: the continuation state re-enters the same value parser -/
 theorem parseBody_restart (b s : Buf) (i : Nat) (h : Hdr) (hb : Option PHdrVals) (hi : i ≤ b.size)
     (hok : hbOK b i hb) {n : Nat} {h2 : Hdr} {hb2 : Option PHdrVals}
@@ -239,7 +279,7 @@ theorem parseBody_restart (b s : Buf) (i : Nat) (h : Hdr) (hb : Option PHdrVals)
       hlCont (b ++ s) n h2 hb2 = .done rC.1 rC.2.1 rC.2.2 ∧ parseBody (b ++ s) i h hb = pB ∧
       pB.2.2.1.state ≠ .bodyStart ∧
       RR hlObs rC (pB.1, pB.2.1, ((if pB.2.1 == .ok then { pB.2.2.1 with state := .fin } else pB.2.2.1), pB.2.2.2))) ∧
-    hbOK (b ++ s) n hb2 ∧ i ≤ n ∧ n ≤ b.size ∧ h2.name = h.name ∧ h2.state.isVal := by
+    hbOK (b ++ s) n hb2 ∧ i ≤ n ∧ n ≤ b.size ∧ h2.name = h.name ∧ h2.state.isVal ∧ hlPending (h2, hb2) := by
   unfold parseBody parseFromVal at hr
   cases hb with
   | none => simp only [Prod.mk.injEq] at hr; exact absurd hr.2.1 (by decide)
@@ -256,11 +296,13 @@ theorem parseBody_restart (b s : Buf) (i : Nat) (h : Hdr) (hb : Option PHdrVals)
       obtain ⟨rfl, rfl, hh2, rfl⟩ := hr
       simp only [Bool.false_eq_true, ↓reduceIte, show (Err.moreBytes == Err.ok) = false from rfl] at hh2
       subst hh2
-      obtain ⟨hrr, hokN, _⟩ := parseNameAddrPVal_resumeR HdrFrom b s i hv.from_ ok1 hq
+      obtain ⟨hrr, hokN, hnf⟩ := parseNameAddrPVal_resumeR HdrFrom b s i hv.from_ ok1 hq
       have hrg := parseNameAddrPVal_more_range HdrFrom b i hv.from_ ok1 hq
       have hk1 : i ≤ n1 := hrg.1
       have hk2 : n1 ≤ (b ++ s).size := by rw [Array.size_append]; omega
-      refine ⟨?_, ⟨hokN, naOK_mono (naOK_grows s ok2) hk1 hk2, csOK_mono (csOK_grows s ok3) hk1 hk2, ctOK_mono (ctOK_grows s ok4) hk1 hk2, paOK_mono (paOK_grows s ok5) hk1 hk2⟩, hrg.1, hrg.2, rfl, Or.inl rfl⟩
+      refine ⟨?_, ⟨hokN, naOK_mono (naOK_grows s ok2) hk1 hk2, csOK_mono (csOK_grows s ok3) hk1 hk2, ctOK_mono (ctOK_grows s ok4) hk1 hk2, paOK_mono (paOK_grows s ok5) hk1 hk2⟩, hrg.1, hrg.2, rfl, Or.inl rfl, (by
+        refine ⟨?_, ?_, ?_, ?_, ?_, ?_, ?_, ?_⟩ <;> intro hh <;>
+          first | exact hnf | (cases hh))⟩
       have hasm := RR.assemble hrr
         (fun e f => ((if e == .ok then { h with val := f.v, state := .fin } else { h with state := .hFrom }),
                      some { hv with from_ := f }))
@@ -299,11 +341,13 @@ theorem parseBody_restart (b s : Buf) (i : Nat) (h : Hdr) (hb : Option PHdrVals)
       obtain ⟨rfl, rfl, hh2, rfl⟩ := hr
       simp only [Bool.false_eq_true, ↓reduceIte, show (Err.moreBytes == Err.ok) = false from rfl] at hh2
       subst hh2
-      obtain ⟨hrr, hokN, _⟩ := parseNameAddrPVal_resumeR HdrTo b s i hv.to ok2 hq
+      obtain ⟨hrr, hokN, hnf⟩ := parseNameAddrPVal_resumeR HdrTo b s i hv.to ok2 hq
       have hrg := parseNameAddrPVal_more_range HdrTo b i hv.to ok2 hq
       have hk1 : i ≤ n1 := hrg.1
       have hk2 : n1 ≤ (b ++ s).size := by rw [Array.size_append]; omega
-      refine ⟨?_, ⟨naOK_mono (naOK_grows s ok1) hk1 hk2, hokN, csOK_mono (csOK_grows s ok3) hk1 hk2, ctOK_mono (ctOK_grows s ok4) hk1 hk2, paOK_mono (paOK_grows s ok5) hk1 hk2⟩, hrg.1, hrg.2, rfl, Or.inr (Or.inl rfl)⟩
+      refine ⟨?_, ⟨naOK_mono (naOK_grows s ok1) hk1 hk2, hokN, csOK_mono (csOK_grows s ok3) hk1 hk2, ctOK_mono (ctOK_grows s ok4) hk1 hk2, paOK_mono (paOK_grows s ok5) hk1 hk2⟩, hrg.1, hrg.2, rfl, Or.inr (Or.inl rfl), (by
+        refine ⟨?_, ?_, ?_, ?_, ?_, ?_, ?_, ?_⟩ <;> intro hh <;>
+          first | exact hnf | (cases hh))⟩
       have hasm := RR.assemble hrr
         (fun e f => ((if e == .ok then { h with val := f.v, state := .fin } else { h with state := .hTo }),
                      some { hv with to := f }))
@@ -344,11 +388,14 @@ theorem parseBody_restart (b s : Buf) (i : Nat) (h : Hdr) (hb : Option PHdrVals)
       subst hh2
       have hrr : RR (fun x : PCallIDBody => x) (parseCallIDVal (b ++ s) n1 f1) (parseCallIDVal (b ++ s) i hv.callid) :=
         RR.ofEq (parseCallIDVal_resume b s i hv.callid hq)
+      have hnf := parseCallIDVal_more_notfin b i hv.callid hq
       have hrg : i ≤ n1 ∧ n1 ≤ b.size := by
         have := parseCallIDVal_range b i hv.callid hi; rw [hq] at this; exact this
       have hk1 : i ≤ n1 := hrg.1
       have hk2 : n1 ≤ (b ++ s).size := by rw [Array.size_append]; omega
-      refine ⟨?_, ⟨naOK_mono (naOK_grows s ok1) hk1 hk2, naOK_mono (naOK_grows s ok2) hk1 hk2, csOK_mono (csOK_grows s ok3) hk1 hk2, ctOK_mono (ctOK_grows s ok4) hk1 hk2, paOK_mono (paOK_grows s ok5) hk1 hk2⟩, hrg.1, hrg.2, rfl, Or.inr (Or.inr (Or.inl rfl))⟩
+      refine ⟨?_, ⟨naOK_mono (naOK_grows s ok1) hk1 hk2, naOK_mono (naOK_grows s ok2) hk1 hk2, csOK_mono (csOK_grows s ok3) hk1 hk2, ctOK_mono (ctOK_grows s ok4) hk1 hk2, paOK_mono (paOK_grows s ok5) hk1 hk2⟩, hrg.1, hrg.2, rfl, Or.inr (Or.inr (Or.inl rfl)), (by
+        refine ⟨?_, ?_, ?_, ?_, ?_, ?_, ?_, ?_⟩ <;> intro hh <;>
+          first | exact hnf | (cases hh))⟩
       have hasm := RR.assemble hrr
         (fun e f => ((if e == .ok then { h with val := f.callID, state := .fin } else { h with state := .hCallID }),
                      some { hv with callid := f }))
@@ -391,9 +438,12 @@ theorem parseBody_restart (b s : Buf) (i : Nat) (h : Hdr) (hb : Option PHdrVals)
       have hrr : RR (fun x : PCSeqBody => x) (parseCSeqVal (b ++ s) n1 f1) (parseCSeqVal (b ++ s) i hv.cseq) :=
         RR.ofEq hex
       have hrg := parseCSeqVal_more_range b i hv.cseq ok3 hq
+      have hnf := parseCSeqVal_more_notfin b i hv.cseq ok3 hq
       have hk1 : i ≤ n1 := hrg.1
       have hk2 : n1 ≤ (b ++ s).size := by rw [Array.size_append]; omega
-      refine ⟨?_, ⟨naOK_mono (naOK_grows s ok1) hk1 hk2, naOK_mono (naOK_grows s ok2) hk1 hk2, hokN, ctOK_mono (ctOK_grows s ok4) hk1 hk2, paOK_mono (paOK_grows s ok5) hk1 hk2⟩, hrg.1, hrg.2, rfl, Or.inr (Or.inr (Or.inr (Or.inl rfl)))⟩
+      refine ⟨?_, ⟨naOK_mono (naOK_grows s ok1) hk1 hk2, naOK_mono (naOK_grows s ok2) hk1 hk2, hokN, ctOK_mono (ctOK_grows s ok4) hk1 hk2, paOK_mono (paOK_grows s ok5) hk1 hk2⟩, hrg.1, hrg.2, rfl, Or.inr (Or.inr (Or.inr (Or.inl rfl))), (by
+        refine ⟨?_, ?_, ?_, ?_, ?_, ?_, ?_, ?_⟩ <;> intro hh <;>
+          first | exact hnf | (cases hh))⟩
       have hasm := RR.assemble hrr
         (fun e f => ((if e == .ok then { h with val := f.v, state := .fin } else { h with state := .hCSeq }),
                      some { hv with cseq := f }))
@@ -435,9 +485,12 @@ theorem parseBody_restart (b s : Buf) (i : Nat) (h : Hdr) (hb : Option PHdrVals)
       have hrr : RR (fun x : PUIntBody => x) (parseCLenVal (b ++ s) n1 f1) (parseCLenVal (b ++ s) i hv.clen) :=
         RR.ofEq (parseCLenVal_resume b s i hv.clen hq)
       have hrg := parseCLenVal_more_range b i hv.clen hi hq
+      have hnf := parseCLenVal_more_notfin b i hv.clen hq
       have hk1 : i ≤ n1 := hrg.1
       have hk2 : n1 ≤ (b ++ s).size := by rw [Array.size_append]; omega
-      refine ⟨?_, ⟨naOK_mono (naOK_grows s ok1) hk1 hk2, naOK_mono (naOK_grows s ok2) hk1 hk2, csOK_mono (csOK_grows s ok3) hk1 hk2, ctOK_mono (ctOK_grows s ok4) hk1 hk2, paOK_mono (paOK_grows s ok5) hk1 hk2⟩, hrg.1, hrg.2, rfl, Or.inr (Or.inr (Or.inr (Or.inr (Or.inl rfl))))⟩
+      refine ⟨?_, ⟨naOK_mono (naOK_grows s ok1) hk1 hk2, naOK_mono (naOK_grows s ok2) hk1 hk2, csOK_mono (csOK_grows s ok3) hk1 hk2, ctOK_mono (ctOK_grows s ok4) hk1 hk2, paOK_mono (paOK_grows s ok5) hk1 hk2⟩, hrg.1, hrg.2, rfl, Or.inr (Or.inr (Or.inr (Or.inr (Or.inl rfl)))), (by
+        refine ⟨?_, ?_, ?_, ?_, ?_, ?_, ?_, ?_⟩ <;> intro hh <;>
+          first | exact hnf | (cases hh))⟩
       have hasm := RR.assemble hrr
         (fun e f => ((if e == .ok then { h with val := f.sVal, state := .fin } else { h with state := .hCLen }),
                      some { hv with clen := f }))
@@ -474,10 +527,12 @@ theorem parseBody_restart (b s : Buf) (i : Nat) (h : Hdr) (hb : Option PHdrVals)
       obtain ⟨rfl, rfl, hh2, rfl⟩ := hr
       simp only [Bool.false_eq_true, ↓reduceIte, show (Err.moreBytes == Err.ok) = false from rfl] at hh2
       subst hh2
-      obtain ⟨hrr, hokN, hrg⟩ := parseAllContactValues_resume b s i _ (by split; exact ok4; exact ok4) hi hq
+      obtain ⟨hrr, hokN, hnf, hrg⟩ := parseAllContactValues_resume b s i _ (by split; exact ok4; exact ok4) hi hq
       have hk1 : i ≤ n1 := hrg.1
       have hk2 : n1 ≤ (b ++ s).size := by rw [Array.size_append]; omega
-      refine ⟨?_, ⟨naOK_mono (naOK_grows s ok1) hk1 hk2, naOK_mono (naOK_grows s ok2) hk1 hk2, csOK_mono (csOK_grows s ok3) hk1 hk2, hokN, paOK_mono (paOK_grows s ok5) hk1 hk2⟩, hrg.1, hrg.2, rfl, Or.inr (Or.inr (Or.inr (Or.inr (Or.inr (Or.inl rfl)))))⟩
+      refine ⟨?_, ⟨naOK_mono (naOK_grows s ok1) hk1 hk2, naOK_mono (naOK_grows s ok2) hk1 hk2, csOK_mono (csOK_grows s ok3) hk1 hk2, hokN, paOK_mono (paOK_grows s ok5) hk1 hk2⟩, hrg.1, hrg.2, rfl, Or.inr (Or.inr (Or.inr (Or.inr (Or.inr (Or.inl rfl))))), (by
+        refine ⟨?_, ?_, ?_, ?_, ?_, ?_, ?_, ?_⟩ <;> intro hh <;>
+          first | exact hnf | (cases hh))⟩
       have hasm := RR.assemble hrr
         (fun e f => ((if e == .ok then { h with val := f.lastHVal, state := .fin } else { h with state := .hContact }),
                      some { hv with contacts := f }))
@@ -516,11 +571,14 @@ theorem parseBody_restart (b s : Buf) (i : Nat) (h : Hdr) (hb : Option PHdrVals)
       subst hh2
       have hrr : RR (fun x : PUIntBody => x) (parseUIntVal (b ++ s) n1 f1) (parseUIntVal (b ++ s) i hv.expires) :=
         RR.ofEq (parseUIntVal_resume b s i hv.expires hq)
+      have hnf := parseUIntVal_more_notfin b i hv.expires hq
       have hrg : i ≤ n1 ∧ n1 ≤ b.size := by
         have := parseUIntVal_range b i hv.expires hi; rw [hq] at this; exact this
       have hk1 : i ≤ n1 := hrg.1
       have hk2 : n1 ≤ (b ++ s).size := by rw [Array.size_append]; omega
-      refine ⟨?_, ⟨naOK_mono (naOK_grows s ok1) hk1 hk2, naOK_mono (naOK_grows s ok2) hk1 hk2, csOK_mono (csOK_grows s ok3) hk1 hk2, ctOK_mono (ctOK_grows s ok4) hk1 hk2, paOK_mono (paOK_grows s ok5) hk1 hk2⟩, hrg.1, hrg.2, rfl, Or.inr (Or.inr (Or.inr (Or.inr (Or.inr (Or.inr (Or.inl rfl))))))⟩
+      refine ⟨?_, ⟨naOK_mono (naOK_grows s ok1) hk1 hk2, naOK_mono (naOK_grows s ok2) hk1 hk2, csOK_mono (csOK_grows s ok3) hk1 hk2, ctOK_mono (ctOK_grows s ok4) hk1 hk2, paOK_mono (paOK_grows s ok5) hk1 hk2⟩, hrg.1, hrg.2, rfl, Or.inr (Or.inr (Or.inr (Or.inr (Or.inr (Or.inr (Or.inl rfl)))))), (by
+        refine ⟨?_, ?_, ?_, ?_, ?_, ?_, ?_, ?_⟩ <;> intro hh <;>
+          first | exact hnf | (cases hh))⟩
       have hasm := RR.assemble hrr
         (fun e f => ((if e == .ok then { h with val := f.sVal, state := .fin } else { h with state := .hExpires }),
                      some { hv with expires := f }))
@@ -557,10 +615,12 @@ theorem parseBody_restart (b s : Buf) (i : Nat) (h : Hdr) (hb : Option PHdrVals)
       obtain ⟨rfl, rfl, hh2, rfl⟩ := hr
       simp only [Bool.false_eq_true, ↓reduceIte, show (Err.moreBytes == Err.ok) = false from rfl] at hh2
       subst hh2
-      obtain ⟨hrr, hokN, hrg⟩ := parseAllPAIValues_resume b s i _ (by split; exact ok5; exact ok5) hi hq
+      obtain ⟨hrr, hokN, hnf, hrg⟩ := parseAllPAIValues_resume b s i _ (by split; exact ok5; exact ok5) hi hq
       have hk1 : i ≤ n1 := hrg.1
       have hk2 : n1 ≤ (b ++ s).size := by rw [Array.size_append]; omega
-      refine ⟨?_, ⟨naOK_mono (naOK_grows s ok1) hk1 hk2, naOK_mono (naOK_grows s ok2) hk1 hk2, csOK_mono (csOK_grows s ok3) hk1 hk2, ctOK_mono (ctOK_grows s ok4) hk1 hk2, hokN⟩, hrg.1, hrg.2, rfl, Or.inr (Or.inr (Or.inr (Or.inr (Or.inr (Or.inr (Or.inr rfl))))))⟩
+      refine ⟨?_, ⟨naOK_mono (naOK_grows s ok1) hk1 hk2, naOK_mono (naOK_grows s ok2) hk1 hk2, csOK_mono (csOK_grows s ok3) hk1 hk2, ctOK_mono (ctOK_grows s ok4) hk1 hk2, hokN⟩, hrg.1, hrg.2, rfl, Or.inr (Or.inr (Or.inr (Or.inr (Or.inr (Or.inr (Or.inr rfl)))))), (by
+        refine ⟨?_, ?_, ?_, ?_, ?_, ?_, ?_, ?_⟩ <;> intro hh <;>
+          first | exact hnf | (cases hh))⟩
       have hasm := RR.assemble hrr
         (fun e f => ((if e == .ok then { h with val := f.lastHVal, state := .fin } else { h with state := .hPAI }),
                      some { hv with pais := f }))
@@ -596,7 +656,7 @@ theorem hlAfterColon_restart (b s : Buf) (k : Nat) (h : Hdr) (hb : Option PHdrVa
     (hs : hlAfterColon b k h hb = .done n .moreBytes (h2, hb2)) :
     (∃ rC rO : Nat × Err × HLσ, hlCont (b ++ s) n h2 hb2 = .done rC.1 rC.2.1 rC.2.2 ∧
       hlAfterColon (b ++ s) k h hb = .done rO.1 rO.2.1 rO.2.2 ∧ RR hlObs rC rO) ∧
-    hbOK (b ++ s) n hb2 ∧ k ≤ n ∧ n ≤ b.size ∧ h2.name = h.name ∧ h2.state.isVal := by
+    hbOK (b ++ s) n hb2 ∧ k ≤ n ∧ n ≤ b.size ∧ h2.name = h.name ∧ h2.state.isVal ∧ hlPending (h2, hb2) := by
   unfold hlAfterColon at hs
   cases hnm : h.name.get? b with
   | none => rw [hnm] at hs; cases hs
@@ -611,8 +671,8 @@ theorem hlAfterColon_restart (b s : Buf) (k : Nat) (h : Hdr) (hb : Option PHdrVa
       obtain ⟨rfl, rfl, hh, rfl⟩ := hs
       simp only [Bool.false_eq_true, ↓reduceIte, show (Err.moreBytes == Err.ok) = false from rfl] at hh
       subst hh
-      obtain ⟨⟨rC, pB, h1, h2, h3, h4⟩, f1, f2, f3, f4, f5⟩ := parseBody_restart b s k _ hb hk hok hp
-      refine ⟨⟨rC, _, h1, ?_, h4⟩, f1, f2, f3, f4, f5⟩
+      obtain ⟨⟨rC, pB, h1, h2, h3, h4⟩, f1, f2, f3, f4, f5, f6⟩ := parseBody_restart b s k _ hb hk hok hp
+      refine ⟨⟨rC, _, h1, ?_, h4⟩, f1, f2, f3, f4, f5, f6⟩
       unfold hlAfterColon
       rw [PField.get?_app h.name b s hn, hnm]
       simp only
@@ -634,14 +694,14 @@ theorem runStep_shift {σ : Type} (m : Machine σ) (hp : Progress m) (B : Buf) (
 
 /-- what every suspension site of the loop body guarantees: the suspended offset is a valid restart point -/
 def HlSite (b s : Buf) (i : Nat) (X : Step HLσ) (o : Nat) (st' : HLσ) : Prop :=
-  i ≤ o ∧ o ≤ b.size ∧ hlInv (b ++ s) o st' ∧
+  i ≤ o ∧ o ≤ b.size ∧ hlInv (b ++ s) o st' ∧ hlPending st' ∧
   ∀ c', (b ++ s)[o]? = some c' →
     RR hlObs (runStep hlMachine (b ++ s) o (hlStep (b ++ s) o c' st')) (runStep hlMachine (b ++ s) i X)
 
 theorem hlSite_of_eq {b s : Buf} {i o : Nat} {X : Step HLσ} {st' : HLσ} (h1 : i ≤ o) (h2 : o ≤ b.size)
-    (h3 : hlInv (b ++ s) o st')
+    (h3 : hlInv (b ++ s) o st') (h3p : hlPending st')
     (h : ∀ c', (b ++ s)[o]? = some c' → hlStep (b ++ s) o c' st' = X) : HlSite b s i X o st' := by
-  refine ⟨h1, h2, h3, fun c' hc => ?_⟩
+  refine ⟨h1, h2, h3, h3p, fun c' hc => ?_⟩
   rw [← h c' hc]
   exact RR.of_eq (runStep_shift hlMachine hl_progress (b ++ s) i o c' st' hc h1)
 
@@ -654,8 +714,8 @@ theorem hlAfterColon_site (b s : Buf) (i k : Nat) (h : Hdr) (hb : Option PHdrVal
     (hs : hlAfterColon b k h hb = .done o .moreBytes st') :
     HlSite b s i (hlAfterColon (b ++ s) k h hb) o st' := by
   obtain ⟨h2, hb2⟩ := st'
-  obtain ⟨⟨rC, rO, e1, e2, hrr⟩, f1, f2, f3, f4, f5⟩ := hlAfterColon_restart b s k h hb hk hd.2 hok hs
-  refine ⟨by omega, f3, ⟨by rw [Array.size_append]; omega, ?_, f1⟩, fun c' hc => ?_⟩
+  obtain ⟨⟨rC, rO, e1, e2, hrr⟩, f1, f2, f3, f4, f5, f6⟩ := hlAfterColon_restart b s k h hb hk hd.2 hok hs
+  refine ⟨by omega, f3, ⟨by rw [Array.size_append]; omega, ?_, f1⟩, f6, fun c' hc => ?_⟩
   · have := hdrOK_grows s hd
     exact ⟨by show h2.name.offs < 65536; rw [f4]; exact this.1, by show h2.name.endT ≤ _; rw [f4]; exact this.2⟩
   · rw [hlStep_isVal _ _ _ _ _ f5, e1, e2]
@@ -675,7 +735,8 @@ theorem hlName_site (b s : Buf) (i : Nat) (h : Hdr) (hb : Option PHdrVals) (hi :
     simp only [Step.done.injEq, true_and] at hs
     obtain ⟨rfl, rfl⟩ := hs
     obtain ⟨hre, hsz⟩ := skipTokenDelim_restart b s i 58 hj hi
-    refine hlSite_of_eq hge (by omega) (hlInv_grows s ⟨by omega, hd, hbOK_mono hok hge (by omega)⟩) (fun c' hc => ?_)
+    refine hlSite_of_eq hge (by omega) (hlInv_grows s ⟨by omega, hd, hbOK_mono hok hge (by omega)⟩)
+      (hlPending_of_not_isVal (by rw [hst]; simp [HState.isVal])) (fun c' hc => ?_)
     unfold hlStep; simp only [hst]
     unfold hlName; simp only [hre]
   | some c0 =>
@@ -714,7 +775,7 @@ theorem hlValEnd_site (b s : Buf) (i j : Nat) (h : Hdr) (hb : Option PHdrVals) (
   obtain ⟨rfl, rfl⟩ := hs
   obtain ⟨hre, _⟩ := skipLWS_restart b s j 0 hsk (by decide)
   refine hlSite_of_eq (by omega) (hrg.2 hj) (hlInv_grows s ⟨hrg.2 hj, hd, hbOK_mono hok hrg.1 (hrg.2 hj)⟩)
-    (fun c' hc => ?_)
+    (hlPending_of_not_isVal (by rw [hst]; simp [HState.isVal])) (fun c' hc => ?_)
   unfold hlStep; simp only [hst]
   unfold hlValEnd; rw [hre]
 
@@ -738,7 +799,8 @@ theorem hlStep_site (b s : Buf) (i : Nat) (c : UInt8) (st : HLσ) (hb : b[i]? = 
         rw [h1] at hs
         simp only [Step.done.injEq, true_and] at hs
         obtain ⟨rfl, rfl⟩ := hs
-        refine ⟨Nat.le_refl _, hi, hlInv_grows s ⟨hi, hd, hok⟩, fun c' hc => ?_⟩
+        refine ⟨Nat.le_refl _, hi, hlInv_grows s ⟨hi, hd, hok⟩,
+          hlPending_of_not_isVal (by rw [hst]; simp [HState.isVal]), fun c' hc => ?_⟩
         rw [get?_app hb] at hc; cases hc
         exact RR.refl _ _
       | some c1 => rw [h1] at hs; simp only at hs; split at hs <;> cases hs
@@ -767,7 +829,7 @@ theorem hlStep_site (b s : Buf) (i : Nat) (c : UInt8) (st : HLσ) (hb : b[i]? = 
       obtain ⟨rfl, rfl⟩ := hs
       obtain ⟨hre, hsz⟩ := skipWS_restart b s i hj hi
       refine hlSite_of_eq hge (by omega) (hlInv_grows s ⟨by omega, hd, hbOK_mono hok hge (by omega)⟩)
-        (fun c' hc => ?_)
+        (hlPending_of_not_isVal (by rw [hst]; simp [HState.isVal])) (fun c' hc => ?_)
       unfold hlStep; simp only [hst, hre]
     | some c1 =>
       have hjl := get?_lt hj
@@ -791,7 +853,7 @@ theorem hlStep_site (b s : Buf) (i : Nat) (c : UInt8) (st : HLσ) (hb : b[i]? = 
     obtain ⟨rfl, rfl⟩ := hs
     obtain ⟨hre, _⟩ := skipLWS_restart b s i 0 hsk (by decide)
     refine hlSite_of_eq hrg.1 (hrg.2 hi) (hlInv_grows s ⟨hrg.2 hi, hd, hbOK_mono hok hrg.1 (hrg.2 hi)⟩)
-      (fun c' hc => ?_)
+      (hlPending_of_not_isVal (by rw [hst]; simp [HState.isVal])) (fun c' hc => ?_)
     unfold hlStep; simp only [hst, hre]
   case val =>
     have hge := skipToken_ge b i
@@ -802,7 +864,7 @@ theorem hlStep_site (b s : Buf) (i : Nat) (c : UInt8) (st : HLσ) (hb : b[i]? = 
       obtain ⟨rfl, rfl⟩ := hs
       obtain ⟨hre, hsz⟩ := skipToken_restart b s i hj hi
       refine hlSite_of_eq hge (by omega) (hlInv_grows s ⟨by omega, hd, hbOK_mono hok hge (by omega)⟩)
-        (fun c' hc => ?_)
+        (hlPending_of_not_isVal (by rw [hst]; simp [HState.isVal])) (fun c' hc => ?_)
       unfold hlStep; simp only [hst, hre]
     | some c1 =>
       have hjl := get?_lt hj
@@ -826,9 +888,9 @@ theorem hlStep_site (b s : Buf) (i : Nat) (c : UInt8) (st : HLσ) (hb : b[i]? = 
      have hiv : h.state.isVal := by rw [hst]; simp [HState.isVal]
      have hs' : hlCont b i h hv = .done o .moreBytes (h2, hb2) := by
        rw [← hlStep_isVal b i c h hv hiv]; unfold hlStep; simp only [hst]; exact hs
-     obtain ⟨⟨rC, rO, e1, e2, hrr⟩, f1, f2, f3, f4⟩ := hlCont_restart b s i h hv hi hok hs'
+     obtain ⟨⟨rC, rO, e1, e2, hrr⟩, f1, f2, f3, f4, f5⟩ := hlCont_restart b s i h hv hi hok hs'
      subst f4
-     refine ⟨f2, f3, ⟨by rw [Array.size_append]; omega, hdrOK_grows s hd, f1⟩, fun c' hc => ?_⟩
+     refine ⟨f2, f3, ⟨by rw [Array.size_append]; omega, hdrOK_grows s hd, f1⟩, f5, fun c' hc => ?_⟩
      rw [hlStep_isVal _ _ _ _ _ hiv, hlStep_isVal _ _ _ _ _ hiv, e1, e2]
      exact hrr)
 
@@ -837,7 +899,7 @@ theorem hl_stepRestart (b s : Buf) :
       RR hlObs (runLoop hlMachine (b ++ s) o st') (runLoop hlMachine (b ++ s) i st) := by
   intro i c st o st' hb hI hs
   change hlStep b i c st = .done o .moreBytes st' at hs
-  obtain ⟨h1, h2, _, h4⟩ := hlStep_site b s i c st hb hI hs
+  obtain ⟨h1, h2, _, _, h4⟩ := hlStep_site b s i c st hb hI hs
   cases hB : (b ++ s)[o]? with
   | none =>
     -- nothing was appended: the extended buffer is the old one
@@ -852,12 +914,93 @@ theorem hl_stepRestart (b s : Buf) :
     rw [runLoop_eq_runStep hlMachine st' hB, runLoop_eq_runStep hlMachine st (get?_app hb)]
     exact h4 c' hB
 
+/-- continuing steps never enter a "continue the value parser" state (only suspensions do) -/
+theorem hlAfterColon_cont_state (b : Buf) (j : Nat) (h : Hdr) (hb : Option PHdrVals) {i' : Nat} {st' : HLσ}
+    (hs : hlAfterColon b j h hb = .cont i' st') : st'.1.state = .bodyStart := by
+  unfold hlAfterColon at hs
+  split at hs
+  · cases hs
+  · simp only at hs
+    split at hs
+    · cases hs
+    · rename_i hst; cases hs; simpa using hst
+
+theorem hlValEnd_cont_state (b : Buf) (j : Nat) (h : Hdr) (hb : Option PHdrVals) {i' : Nat} {st' : HLσ}
+    (hs : hlValEnd b j h hb = .cont i' st') : st'.1.state = .val := by
+  unfold hlValEnd at hs
+  rcases hsk : skipLWS b j 0 with ⟨n, crl, e⟩
+  rw [hsk] at hs
+  cases e <;> simp only at hs <;> cases hs
+  rfl
+
+theorem hlName_cont_state (b : Buf) (i : Nat) (h : Hdr) (hb : Option PHdrVals) {i' : Nat} {st' : HLσ}
+    (hs : hlName b i h hb = .cont i' st') : st'.1.state = .bodyStart ∨ st'.1.state = .nameEnd := by
+  unfold hlName at hs
+  simp only at hs
+  split at hs
+  · cases hs
+  · split at hs
+    · split at hs
+      · cases hs
+      · cases hs; exact Or.inr rfl
+    · split at hs
+      · split at hs
+        · cases hs
+        · exact Or.inl (hlAfterColon_cont_state _ _ _ _ hs)
+      · cases hs
+
+theorem hl_cont_not_isVal (b : Buf) (i : Nat) (c : UInt8) (st : HLσ) {i' : Nat} {st' : HLσ}
+    (hs : hlStep b i c st = .cont i' st') : ¬ st'.1.state.isVal := by
+  obtain ⟨h, hv⟩ := st
+  have key : st'.1.state = .bodyStart ∨ st'.1.state = .nameEnd ∨ st'.1.state = .val := by
+    unfold hlStep at hs
+    simp only at hs
+    cases hst : h.state <;> rw [hst] at hs <;> simp only at hs
+    case init =>
+      split at hs
+      · split at hs
+        · cases hs
+        · split at hs <;> cases hs
+      · split at hs
+        · cases hs
+        · rcases hlName_cont_state _ _ _ _ hs with h1 | h1
+          · exact Or.inl h1
+          · exact Or.inr (Or.inl h1)
+    case name =>
+      rcases hlName_cont_state _ _ _ _ hs with h1 | h1
+      · exact Or.inl h1
+      · exact Or.inr (Or.inl h1)
+    case nameEnd =>
+      split at hs
+      · cases hs
+      · split at hs
+        · exact Or.inl (hlAfterColon_cont_state _ _ _ _ hs)
+        · cases hs
+    case bodyStart =>
+      rcases hsk : skipLWS b i 0 with ⟨n, crl, e⟩
+      rw [hsk] at hs
+      cases e <;> simp only at hs <;> cases hs
+      exact Or.inr (Or.inr rfl)
+    case val =>
+      split at hs
+      · cases hs
+      · exact Or.inr (Or.inr (hlValEnd_cont_state _ _ _ _ hs))
+    case valEnd => exact Or.inr (Or.inr (hlValEnd_cont_state _ _ _ _ hs))
+    case fin => cases hs
+    all_goals
+      (unfold hlCont at hs
+       cases hv with
+       | none => cases hs
+       | some v => simp only [hst] at hs; first | cases hs | (split at hs; cases hs))
+  intro hv'
+  rcases key with h1 | h1 | h1 <;> rw [h1] at hv' <;> simp [HState.isVal] at hv'
+
 /-- **L2 for ParseHdrLine** -/
 theorem parseHdrLine_resume (b s : Buf) (o : Nat) (h : Hdr) (hb : Option PHdrVals) (hok : hlOK b o h hb)
-    {o' : Nat} {h' : Hdr} {hb' : Option PHdrVals}
+    (hpe : hlPending (h, hb)) {o' : Nat} {h' : Hdr} {hb' : Option PHdrVals}
     (hr : parseHdrLine b o h hb = (o', Err.moreBytes, h', hb')) :
     RR hlObs (parseHdrLine (b ++ s) o' h' hb') (parseHdrLine (b ++ s) o h hb) ∧
-      hlOK (b ++ s) o' h' hb' ∧ o ≤ o' ∧ o' ≤ b.size := by
+      hlOK (b ++ s) o' h' hb' ∧ hlPending (h', hb') ∧ o ≤ o' ∧ o' ≤ b.size := by
   unfold parseHdrLine at hr
   rcases hrl : runLoop hlMachine b o (h, hb) with ⟨o1, e1, h1, hb1⟩
   rw [hrl] at hr
@@ -871,22 +1014,23 @@ theorem parseHdrLine_resume (b s : Buf) (o : Nat) (h : Hdr) (hb : Option PHdrVal
       obtain ⟨rfl, rfl⟩ := he
       exact RR.refl _ _)
     o (h, hb) hok hrl
-  have hinv := runLoop_moreI hlMachine b (fun i st => hlInv b i st ∧ o ≤ i)
-    (fun o2 st2 => hlInv (b ++ s) o2 st2 ∧ o ≤ o2 ∧ o2 ≤ b.size)
+  have hinv := runLoop_moreI hlMachine b (fun i st => hlInv b i st ∧ o ≤ i ∧ hlPending st)
+    (fun o2 st2 => hlInv (b ++ s) o2 st2 ∧ hlPending st2 ∧ o ≤ o2 ∧ o2 ≤ b.size)
     (by
       intro i c st i' st' hb hI hs hlt
-      exact ⟨hl_invCont b i c st i' st' hb hI.1 hs hlt, by have := hI.2; omega⟩)
+      exact ⟨hl_invCont b i c st i' st' hb hI.1 hs hlt, by have := hI.2.1; omega,
+        hlPending_of_not_isVal (hl_cont_not_isVal b i c st hs)⟩)
     (by
       intro i c st o2 st2 hb hI hs
-      obtain ⟨h1, h2, h3, _⟩ := hlStep_site b s i c st hb hI.1 hs
-      exact ⟨h3, by have := hI.2; omega, h2⟩)
+      obtain ⟨h1, h2, h3, h3p, _⟩ := hlStep_site b s i c st hb hI.1 hs
+      exact ⟨h3, h3p, by have := hI.2.1; omega, h2⟩)
     (by
       intro i st o2 st2 _ hI he
       simp only [hlMachine, Prod.mk.injEq, true_and] at he
       obtain ⟨rfl, rfl⟩ := he
-      exact ⟨hlInv_grows s hI.1, hI.2, hI.1.1⟩)
-    o (h, hb) ⟨hok, Nat.le_refl _⟩ hrl
-  refine ⟨?_, hinv.1, hinv.2.1, hinv.2.2⟩
+      exact ⟨hlInv_grows s hI.1, hI.2.2, hI.2.1, hI.1.1⟩)
+    o (h, hb) ⟨hok, Nat.le_refl _, hpe⟩ hrl
+  refine ⟨?_, hinv.1, hinv.2.1, hinv.2.2.1, hinv.2.2.2⟩
   unfold parseHdrLine
   exact hres
 
